@@ -3,8 +3,13 @@
 // parametric in its sizes; the public minimum lg_k = 5 only changes the constants. Hash values are
 // symbolic arguments of try_insert (the real hash is tied to them by c04_hash_and_screen / C16).
 use super::*;
+use crate::verif_kani_common::model_select_nth;
 
 pub(crate) fn raw_table(lg_cur: u8, theta: u64, entries: &[u64]) -> ThetaHashTable {
+    raw_table_nom(2, lg_cur, theta, entries)
+}
+
+pub(crate) fn raw_table_nom(lg_nom: u8, lg_cur: u8, theta: u64, entries: &[u64]) -> ThetaHashTable {
     let mut n = 0;
     let mut i = 0;
     while i < entries.len() {
@@ -13,17 +18,20 @@ pub(crate) fn raw_table(lg_cur: u8, theta: u64, entries: &[u64]) -> ThetaHashTab
         }
         i += 1;
     }
-    ThetaHashTable {
-        lg_cur_size: lg_cur,
-        lg_nom_size: 2,
-        lg_max_size: 3,
-        resize_factor: ResizeFactor::X2,
-        sampling_probability: 1.0,
-        hash_seed: crate::hash::DEFAULT_UPDATE_SEED,
-        theta,
-        entries: entries.to_vec(),
-        num_entries: n,
+    // built through new() and field assignment (no struct literal) so that the harness does not depend
+    // on the exact field list of the table
+    let mut t = ThetaHashTable::new(5, ResizeFactor::X2, 1.0, crate::hash::DEFAULT_UPDATE_SEED);
+    t.lg_cur_size = lg_cur;
+    t.lg_nom_size = lg_nom;
+    t.lg_max_size = lg_nom + 1;
+    if n > 0 {
+        // a table that retains hashes has been offered data
+        let _ = t.hash_and_screen(1u64);
     }
+    t.theta = theta;
+    t.entries = entries.to_vec();
+    t.num_entries = n;
+    t
 }
 
 /// every non-zero entry is below theta, entries are distinct
@@ -72,6 +80,11 @@ fn findable_or_absent(e: &[u64], key: u64, lg: u8) -> bool {
         s += 1;
     }
     true
+}
+
+/// cut: the harness's assumptions exclude this path; reaching it fails the harness
+fn must_not_reach(_t: &mut ThetaHashTable) {
+    panic!("verif cut: path assumed unreachable was reached");
 }
 
 fn contains(e: &[u64], key: u64) -> bool {
@@ -139,6 +152,8 @@ fn c04_find_in_entries_spec() {
 //@ desc: try_insert(h) without rebuild: retained' = retained + {h}, duplicates ignored (returns false, nothing changes), theta unchanged, every other slot unchanged, count exact
 #[kani::proof]
 #[kani::unwind(10)]
+#[kani::stub(ThetaHashTable::rebuild, must_not_reach)]
+#[kani::stub(ThetaHashTable::resize, must_not_reach)]
 fn c04_try_insert_step() {
     let e: [u64; 8] = kani::any();
     let theta: u64 = kani::any();
@@ -182,25 +197,26 @@ fn c04_try_insert_step() {
 //@ timeout: 1500
 //@ functions: theta::ThetaHashTable::try_insert
 //@ functions: theta::ThetaHashTable::rebuild
-//@ bounds: lg_nom = 2 (k = 4): table of 8 slots holding exactly 7 distinct entries, every content and theta; the 8th distinct hash triggers rebuild (num_entries 8 > capacity 7)
+//@ bounds: lg_nom = 1 (k = 2): rebuild-mode table of 4 slots holding exactly 3 distinct entries, every content and theta; the 4th distinct hash triggers rebuild (num_entries 4 > capacity 3). std's select_nth_unstable is replaced by a reference insertion-sort model of its contract (std's introselect does not get through symbolic execution)
 //@ assumes: table invariant as in c04_try_insert_step
-//@ desc: the insert that overflows the table rebuilds it: theta' = the (k+1)-th smallest of the 8 hashes, retained' = exactly the k smallest = {e : e < theta'}, theta' <= theta (never increases), count = k, every retained hash findable
+//@ desc: the insert that overflows the table rebuilds it: theta' = the (k+1)-th smallest of the hashes, retained' = exactly the k smallest = {e : e < theta'}, theta' <= theta (never increases), count = k, every retained hash findable
 #[kani::proof]
 #[kani::unwind(10)]
+#[kani::stub(ThetaHashTable::resize, must_not_reach)]
+#[kani::stub(<[u64]>::select_nth_unstable, model_select_nth)]
 fn c04_rebuild_step() {
-    let e: [u64; 8] = kani::any();
+    let e: [u64; 4] = kani::any();
     let theta: u64 = kani::any();
     kani::assume(theta >= 1 && theta <= MAX_THETA);
     kani::assume(entries_valid(&e, theta));
-    kani::assume(count_nonzero(&e) == 7);
+    kani::assume(count_nonzero(&e) == 3);
     let h: u64 = kani::any();
     kani::assume(h != 0 && h < theta && !contains(&e, h));
-    let mut t = raw_table(3, theta, &e);
+    let mut t = raw_table_nom(1, 2, theta, &e);
     assert!(t.try_insert(h));
-    // model: all 8 hashes
     let mut all = e;
     let mut i = 0;
-    while i < 8 {
+    while i < 4 {
         if all[i] == 0 {
             all[i] = h;
         }
@@ -209,22 +225,21 @@ fn c04_rebuild_step() {
     let new_theta = t.theta;
     assert!(new_theta <= theta, "theta increased");
     assert!(contains(&all, new_theta), "new theta is not one of the offered hashes");
-    // new theta is the 5th smallest: exactly 4 of the 8 are below it
     let mut below = 0;
     let mut i = 0;
-    while i < 8 {
+    while i < 4 {
         if all[i] < new_theta {
             below += 1;
             assert!(contains(&t.entries, all[i]), "a hash below the new theta was dropped");
-            assert!(findable_or_absent(&t.entries, all[i], 3));
+            assert!(findable_or_absent(&t.entries, all[i], 2));
         } else {
             assert!(!contains(&t.entries, all[i]), "a hash >= theta is still retained");
         }
         i += 1;
     }
-    assert!(below == 4, "new theta is not the (k+1)-th smallest hash");
-    assert!(t.num_entries == 4 && count_nonzero(&t.entries) == 4);
-    assert!(t.entries.len() == 8);
+    assert!(below == 2, "new theta is not the (k+1)-th smallest hash");
+    assert!(t.num_entries == 2 && count_nonzero(&t.entries) == 2);
+    assert!(t.entries.len() == 4);
     kani::cover!(true);
     core::mem::forget(t);
 }
@@ -239,6 +254,7 @@ fn c04_rebuild_step() {
 //@ desc: resize keeps exactly the same retained set and theta, doubles the table, and every retained hash is findable in the new table
 #[kani::proof]
 #[kani::unwind(10)]
+#[kani::stub(ThetaHashTable::rebuild, must_not_reach)]
 fn c04_resize_step() {
     let e: [u64; 4] = kani::any();
     let theta: u64 = kani::any();
@@ -272,32 +288,33 @@ fn c04_resize_step() {
 //@ functions: theta::ThetaHashTable::trim
 //@ functions: theta::ThetaHashTable::reset
 //@ functions: theta::ThetaHashTable::rebuild
-//@ bounds: lg_nom = 2 (k = 4), table of 8 slots holding 0..=7 entries, every content / theta
+//@ bounds: lg_nom = 1 (k = 2), table of 4 slots holding 0..=3 entries, every content / theta
 //@ assumes: table invariant
 //@ desc: trim() leaves exactly the k smallest hashes (nothing changes when <= k are retained) with theta' = (k+1)-th smallest; reset() restores the initial state (no entries, theta = initial theta, initial table size)
 #[kani::proof]
 #[kani::unwind(10)]
+#[kani::stub(<[u64]>::select_nth_unstable, model_select_nth)]
 fn c04_trim_reset() {
-    let e: [u64; 8] = kani::any();
+    let e: [u64; 4] = kani::any();
     let theta: u64 = kani::any();
     kani::assume(theta >= 1 && theta <= MAX_THETA);
     kani::assume(entries_valid(&e, theta));
     let n0 = count_nonzero(&e);
-    kani::assume(n0 <= 7);
-    let mut t = raw_table(3, theta, &e);
+    kani::assume(n0 <= 3);
+    let mut t = raw_table_nom(1, 2, theta, &e);
     t.trim();
-    if n0 <= 4 {
+    if n0 <= 2 {
         assert!(t.theta == theta && t.num_entries == n0);
         let mut i = 0;
-        while i < 8 {
+        while i < 4 {
             assert!(t.entries[i] == e[i]);
             i += 1;
         }
     } else {
-        assert!(t.num_entries == 4 && count_nonzero(&t.entries) == 4, "trim did not leave k entries");
+        assert!(t.num_entries == 2 && count_nonzero(&t.entries) == 2, "trim did not leave k entries");
         assert!(t.theta <= theta && contains(&e, t.theta));
         let mut i = 0;
-        while i < 8 {
+        while i < 4 {
             if e[i] != 0 {
                 assert!(contains(&t.entries, e[i]) == (e[i] < t.theta), "trim kept a wrong set");
             }
@@ -307,10 +324,9 @@ fn c04_trim_reset() {
     t.reset();
     assert!(t.num_entries == 0 && count_nonzero(&t.entries) == 0 && t.is_empty());
     assert!(t.theta == MAX_THETA, "reset did not restore theta");
-    // initial size for lg_nom = 2: starting_sub_multiple(3, MIN_LG_K, 1) = MIN_LG_K
     assert!(t.lg_cur_size == MIN_LG_K && t.entries.len() == 1 << MIN_LG_K);
-    kani::cover!(n0 == 7);
     kani::cover!(n0 == 3);
+    kani::cover!(n0 == 1);
     core::mem::forget(t);
 }
 
